@@ -30,6 +30,7 @@ from mc.ref import scores as RS
 from mc.ref import aggregators as AG
 from checks import common_data as CD
 from checks import c12_tables as T12
+from checks import c11_slicing as T11
 
 PID = "C13"
 LEVEL = "model_checking"
@@ -647,7 +648,11 @@ def plan(tier):
     cfg_combos = [c for k in ((1, 2) if q else (1, 2, 3)) for c in itertools.combinations(pool, k)]
     return [("model", h_model, {}, "dev", 3 if q else 4), ("order", h_order, {"size": 2, "combos": combos}, "full", None),
             ("config", h_config, {"combos": cfg_combos}, "full", None), ("lists", h_lists, {}, "full", None),
-            ("vectors", h_vectors, {}, "full", None), ("dates", h_dates, {}, "full", None), ("reject", h_reject, {}, "full", None)]
+            ("vectors", h_vectors, {}, "full", None), ("dates", h_dates, {}, "full", None), ("reject", h_reject, {}, "full", None),
+            # -agg also governs the special outputs that aggregate along the x-axis themselves (-m obsfcst): the table oracle of C12
+            ("agg-obsfcst", T12.h_obsfcst, {}, "full", None),
+            # every -x dimension through the driver on initialisation times that include half hours (the calendar oracle of C11)
+            ("axes-cli", T11.h_datasets, {"via": "cli", "subsets": [(16,), (4, 16), (4, 16, 17), (10, 17), (2, 5, 16), (0, 17)]}, "full", None)]
 
 
 def run(tier, only=None):
@@ -661,6 +666,8 @@ def run(tier, only=None):
                  "order": "%d option sets of size <= %d x all permutations of groups and file positions" % (len(params.get("combos", [])), 3 if tier == "quick" else 4),
                  "config": "%d option sets x every partition between command line and two --config files" % len(params.get("combos", [])),
                  "lists": "5 listings x 11 subsetting variants x 3 flag positions", "vectors": "full grid start x end x step x 7 comma mixtures (single range; with plain numbers; with two- and three-part ranges before and after)",
+                 "agg-obsfcst": "-m obsfcst: {1,2,3} inputs x 6 axes x {csv,text} x 4 quantile lists x -agg {mean, max}",
+                 "axes-cli": "6 sets of initialisation times containing half hours x 15 -x dimensions through the driver (counts, mae, labels)",
                  "dates": "every start day of 36 months x 9 lengths x 5 steps", "reject": "%d rejection cases x %d companions x 3 positions" % (len(REJECTS), len(VALID_SINGLE) + 1)}[name]
         subs.append(core.Sub.from_e1(name, st, bound=bound, rule="one execution = one model trace (command line or family of equivalent command lines) replayed against the driver",
                                      min_outcomes=1, wall=time.time() - t0))
